@@ -1,3 +1,355 @@
-(* Corr_IntSystem_proofs.v — the monitor of the whole-system correspondence accepts the model's own prediction. *)
+(* Corr_IntSystem_proofs.v — the monitor of the whole-system correspondence accepts the model's own prediction,
+   for EVERY deployment and history: it demands no more than what props/IntegrationSystem.v proves. *)
 From V Require Import Base Base_proofs Validators SystemAll SystemAll_proofs CorrBase Corr_IntSystem.
+From V Require ProxyCore ProxyCore_proofs ProxyAll ProxyAll_proofs AuthAll AuthAll_proofs AuthBack AuthBack_proofs AuthFlow AuthFlow_proofs.
+From V Require ReqHeaders Hostmux Url Corr_C07 Corr_C07_proofs RespHeaders.
+From Coq Require Import ZifyBool ZifyN ZifyNat.
 Local Open Scope Z_scope.
+
+(* ---- small facts ---- *)
+Lemma close_refl z : close z z = true.
+Proof. unfold close. lia. Qed.
+
+(* C11: a login gate that passes e under SOME group answer passes it under the most favourable one *)
+Section Gate.
+Variable lower : str -> str.
+
+Lemma group_validate_self g : g <> [] -> group_validate g (GroupsOk g) = true.
+Proof.
+  intros Hg. unfold group_validate, validate_group.
+  assert (Hm : forall x r, negb (match flat_map (fun u => filter (str_eqb u) (x :: r)) (x :: r) with [] => true | _ => false end) = true).
+  { intros x r. cbn [flat_map filter]. rewrite str_eqb_refl. reflexivity. }
+  destruct g as [|x [|y r]]; [contradiction| |].
+  - destruct (str_eqb x star); [reflexivity|]. cbn [gr_err gr_valid negb andb]. apply Hm.
+  - cbn [gr_err gr_valid negb andb]. apply Hm.
+Qed.
+
+Lemma run_validator_best pol e ans v :
+  In v (validators_of lower pol) -> run_validator lower e ans v = true ->
+  run_validator lower e (GroupsOk (p_groups pol)) v = true.
+Proof.
+  unfold validators_of. intros Hin Hr.
+  apply in_app_or in Hin as [Hin|Hin]; [destruct (p_addresses pol); [destruct Hin | destruct Hin as [<-|[]]; exact Hr]|].
+  apply in_app_or in Hin as [Hin|Hin]; [destruct (p_domains pol); [destruct Hin | destruct Hin as [<-|[]]; exact Hr]|].
+  destruct (p_groups pol) as [|g0 gs] eqn:Eg; [destruct Hin|]. destruct Hin as [<-|[]].
+  cbn [run_validator]. apply group_validate_self. discriminate.
+Qed.
+
+Lemma filter_len_le {X} (f : X -> bool) l : (length (filter f l) <= length l)%nat.
+Proof. induction l as [|y l IH]; cbn; [lia|]. destruct (f y); cbn; lia. Qed.
+
+Lemma filter_length_lt {X} (f : X -> bool) l : (exists x, In x l /\ f x = false) <-> length (filter f l) <> length l.
+Proof.
+  induction l as [|y l IH]; cbn [filter length In]; [split; [intros [x [[] _]] | intros H; contradiction]|].
+  pose proof (filter_len_le f l) as Hle.
+  destruct (f y) eqn:Ey; cbn [length].
+  - split.
+    + intros [x [[->|Hin] Hx]]; [congruence|]. assert (length (filter f l) <> length l) by (apply IH; eauto). lia.
+    + intros H. assert (H' : length (filter f l) <> length l) by lia. apply IH in H' as [x [Hin Hx]]. eauto.
+  - split; [intros _; lia|]. intros _. exists y. auto.
+Qed.
+
+Lemma login_gate_best pol e ans :
+  login_gate lower pol e ans = true -> login_gate lower pol e (GroupsOk (p_groups pol)) = true.
+Proof.
+  unfold login_gate. intros H. apply negb_true_iff in H. apply Nat.eqb_neq in H.
+  apply negb_true_iff. apply Nat.eqb_neq.
+  apply (filter_length_lt (fun v => negb (run_validator lower e ans v))) in H as [v [Hin Hv]].
+  apply negb_false_iff in Hv.
+  apply (filter_length_lt (fun v => negb (run_validator lower e (GroupsOk (p_groups pol)) v))).
+  exists v. split; [exact Hin|]. apply negb_false_iff. eapply run_validator_best; eauto.
+Qed.
+
+End Gate.
+
+Section Accept.
+Variable re_match : str -> str -> bool.
+Variable re_replace : str -> str -> str -> str.
+Variable lower : str -> str.
+Variable sd : sysdep.
+Hypothesis Hwf : wf sd.
+Hypothesis Hwired : wired re_match sd.
+Hypothesis HV : 0 <= P.dp_V (sd_p sd).
+
+Notation INV := (Inv re_match lower sd).
+Notation poutc := (proxy_outcome re_match re_replace lower sd).
+Notation pstep := (proxy_step re_match re_replace lower sd).
+
+Lemma served_headers st q bk lk sc bv :
+  P.oc_backend (poutc st q bk lk sc) = Some bv ->
+  exists u, P.route_ext re_match (P.dp_ups (sd_p sd)) (P.rq_host q) = Some u /\
+    (P.skip_hit re_match u q = true -> PP.identity_absent (P.bk_handler bv)) /\
+    (P.skip_hit re_match u q = false -> exists e, ReqHeaders.h_get ReqHeaders.k_xfe (P.bk_handler bv) = [e]).
+Proof.
+  intros Hb. unfold proxy_outcome in Hb.
+  destruct (PP.backend_reached_only_if re_match re_replace lower _ _ _ _ _ _ Hb)
+    as (u & Hr & _ & _ & _ & _ & _ & _ & _ & _ & _ & _ & Hmed & _).
+  exists u. split; [exact Hr|]. split.
+  - intros Hsk. destruct Hmed as [[_ [_ Habs]]|[s [s' [_ [_ [_ [_ Habs]]]]]]]; [exact Habs | exact (Habs Hsk)].
+  - intros Hsk. destruct Hmed as [[_ [Hs _]]|[s [s' [_ [_ [_ [Hid _]]]]]]]; [congruence|].
+    destruct (Hid Hsk) as [_ [Hx _]]. eauto.
+Qed.
+
+Lemma visible_saved cn r eff sv : P.visible_session cn r eff = PC.CSaved sv -> eff = PC.CSaved sv.
+Proof.
+  unfold P.visible_session. destruct r; try discriminate.
+  destruct (rev _) as [|v l]; try discriminate. destruct v as [c0|c0]; try discriminate.
+  destruct (RespHeaders.ck_empty c0); try discriminate; auto.
+Qed.
+
+Lemma first_rev_in i g t : first_rev i (Some g) = Some t -> In (g, t) (i_rev i).
+Proof.
+  unfold first_rev. destruct (find _ (i_rev i)) as [[g' t']|] eqn:E; [|discriminate].
+  intros H; inversion H; subst. apply find_some in E as [Hin Hg]. cbn in Hg. apply Nat.eqb_eq in Hg. subst. exact Hin.
+Qed.
+
+Lemma first_rev_none i g : is_revoked i g = false -> first_rev i g = None.
+Proof.
+  unfold first_rev, is_revoked. destruct g as [n|]; [|reflexivity]. intros H.
+  destruct (find _ (i_rev i)) as [r|] eqn:E; [|reflexivity]. exfalso.
+  apply find_some in E as [Hin Hg]. assert (existsb (fun r => Nat.eqb n (fst r)) (i_rev i) = true) by (apply existsb_exists; eauto).
+  congruence.
+Qed.
+
+Lemma callback_path_route path : str_eqb path P.p_callback = true -> P.route_of_path path = P.RtCallback.
+Proof. intros H. apply str_eqb_eq in H. subst. reflexivity. Qed.
+
+(* the lineage the model reports for a cookie it issued *)
+Lemma model_chain_of st p c g v :
+  Names st -> In c (st_c st) -> pr_code p = Some (cr_val c) -> cr_grant c = Some g -> nth_error (st_v st) g = Some v ->
+  model_chain st p =
+  Some {| ch_login_now := pr_login p; ch_login_host := pr_host p; ch_login_email := PC.s_email (pr_s p); ch_login_redeem := true;
+          ch_code_now := cr_at c; ch_code_email := B.s_email (cr_s c); ch_code_uri := cr_uri c;
+          ch_sig_ok := match cr_sig c with Some _ => true | None => false end;
+          ch_vouch_now := vr_at v; ch_vouch_email := vr_email v; ch_vouch_called := true;
+          ch_revoked := first_rev (st_idp st) (pr_grant p) |}.
+Proof.
+  intros Hn Hin Hc Hg Hv. unfold model_chain. rewrite Hc, (find_c_named st c Hn Hin), Hg, Hv. reflexivity.
+Qed.
+
+Lemma proxy_accepted st q bk lk sc :
+  INV st -> Rev st -> Names st ->
+  proxy_ok re_match re_replace lower sd false (st_now st) (P.rq_host q) (P.rq_path q)
+    (model_pobs sd st (fst (pstep st q bk lk sc)) q (snd (pstep st q bk lk sc))) = true.
+Proof.
+  intros HI HR HN. pose proof HI as HI0.
+  set (st' := fst (pstep st q bk lk sc)). set (po := snd (pstep st q bk lk sc)).
+  assert (Hpo : po_out po = poutc st q bk lk sc) by reflexivity.
+  set (o := model_pobs sd st st' q po).
+  assert (Hseen : op_seen o = match P.oc_backend (poutc st q bk lk sc) with
+                              | Some bv => [{| b_target := P.bk_target bv;
+                                               b_email := ReqHeaders.h_get ReqHeaders.k_xfe (P.bk_handler bv);
+                                               b_user := ReqHeaders.h_get ReqHeaders.k_xfu (P.bk_handler bv);
+                                               b_groups := ReqHeaders.h_get ReqHeaders.k_xfg (P.bk_handler bv);
+                                               b_sess_cookie := false |}]
+                              | None => [] end).
+  { unfold o, model_pobs. cbn [op_seen]. rewrite Hpo. reflexivity. }
+  assert (Hpres : op_pres o = pres_session sd st q) by reflexivity.
+  assert (Hchain : op_chain o = match presented_p sd st q with Some p => model_chain st p | None => None end) by reflexivity.
+  assert (Houts : op_outs o = st_out st') by reflexivity.
+  assert (Heff : op_eff o = P.visible_session (P.dp_cookie_name (sd_p sd)) (P.oc_client (poutc st q bk lk sc)) (P.oc_session (poutc st q bk lk sc))).
+  { unfold o, model_pobs. cbn [op_eff]. rewrite Hpo. reflexivity. }
+  clearbody o. unfold proxy_ok. apply andb_true_iff. split.
+  - (* backend receipts *)
+    rewrite Hseen.
+    destruct (P.oc_backend (poutc st q bk lk sc)) as [bv|] eqn:Eb; [|reflexivity].
+    cbn [forallb]. rewrite andb_true_r. unfold identity_ok.
+    destruct (served_identity re_match re_replace lower sd st q bk lk sc bv HI Eb) as (u & Hr & Ht & Hsk & Hid).
+    destruct (served_headers st q bk lk sc bv Eb) as (u' & Hr' & Habs & Hone).
+    rewrite Hr in Hr'. inversion Hr'; subst u'. clear Hr'.
+    unfold route_of, d_p. rewrite Hr. cbn [b_target b_sess_cookie b_email b_user b_groups].
+    rewrite Ht, str_eqb_refl. cbn [negb andb].
+    assert (Hskip : skip_path re_match sd (P.rq_host q) (P.rq_path q) = P.skip_hit re_match u q).
+    { unfold skip_path, route_of, d_p. rewrite Hr. reflexivity. }
+    rewrite Hskip. destruct (P.skip_hit re_match u q) eqn:Esk.
+    { pose proof (Habs eq_refl) as Ha. unfold PP.identity_absent in Ha.
+      rewrite (Ha ReqHeaders.k_xfe), (Ha ReqHeaders.k_xfu), (Ha ReqHeaders.k_xfg); try reflexivity;
+        unfold ReqHeaders.identity_keys; cbn; tauto. }
+    destruct (Hone eq_refl) as [e He]. rewrite He.
+    destruct (Hid e ltac:(rewrite He; left; reflexivity)) as (_ & Hch & s & Hck & Hok).
+    destruct Hch as (p & c & g & v & K).
+    destruct K as (K1 & K2 & K3 & K4 & K5 & K6 & K7 & K8 & K9 & K10 & K11 & K12 & K13 & K14 & K15 & K16 & K17 & K18 & K19 & K20 & K21 & K22).
+    destruct (session_cookie_presented sd st q s Hck) as [p' [Hp' [Hps Hpin]]].
+    rewrite K1 in Hp'. inversion Hp'; subst p'. clear Hp'.
+    rewrite Hpres, Hchain, Houts. unfold pres_session. rewrite K1.
+    rewrite (model_chain_of st p c g v HN K8 K9 K18 K19).
+    cbn [ch_login_now ch_login_host ch_login_email ch_login_redeem ch_code_now ch_code_email ch_code_uri ch_sig_ok
+         ch_vouch_now ch_vouch_email ch_vouch_called ch_revoked].
+    destruct Hok as (_ & Hup & Hlife & _).
+    destruct HI as (_ & _ & HC & HP & _). rewrite Forall_forall in HP, HC.
+    destruct (HP p K2) as (c0 & u0 & code0 & Q). destruct Q as (_ & _ & _ & _ & Q5 & _).
+    rewrite Hps in *.
+    destruct K17 as (m & t0 & S1 & S2 & S3 & S4 & S5). destruct K7 as [ans Hg].
+    assert (L1 : str_eqb (PC.s_email s) e = true) by (rewrite K3; apply str_eqb_refl).
+    assert (L2 : str_eqb (PC.s_upstream s) (P.rq_host q) = true) by (rewrite Hup; apply str_eqb_refl).
+    assert (L3 : (st_now st <=? PC.s_lifetime_dl s + slack) = true) by (unfold slack; clear - Hlife; lia).
+    assert (L4 : close (pr_login p + P.dp_L (sd_p sd)) (PC.s_lifetime_dl s) = true) by (rewrite Q5; apply close_refl).
+    assert (L5 : str_eqb (pr_host p) (P.rq_host q) = true) by (rewrite K4; apply str_eqb_refl).
+    assert (L6 : str_eqb (PC.s_email s) e = true) by exact L1.
+    assert (L7 : (pr_login p <=? st_now st) = true) by (clear - K5; lia).
+    assert (L8 : creds_agree sd = true) by (unfold creds_agree, d_a; rewrite S3; apply str_eqb_refl).
+    assert (L9 : login_gate lower (Hostmux.u_policy (P.up_hm u)) e (GroupsOk (p_groups (Hostmux.u_policy (P.up_hm u)))) = true)
+      by (eapply login_gate_best; exact Hg).
+    assert (L10 : str_eqb (B.s_email (cr_s c)) e = true) by (rewrite K11; apply str_eqb_refl).
+    assert (L11 : (cr_at c <=? pr_login p + slack) = true) by (unfold slack; clear - K13; lia).
+    assert (L12 : in_domain_uri sd (cr_uri c) = true) by (unfold in_domain_uri, d_a; apply Corr_C07_proofs.redir_monitor_ok; exact K15).
+    assert (L13 : match cr_sig c with Some _ => true | None => false end = true) by (rewrite S1; reflexivity).
+    assert (L14 : str_eqb (vr_email v) e = true) by (rewrite K20; apply str_eqb_refl).
+    assert (L15 : (vr_at v <=? cr_at c + slack) = true) by (unfold slack; clear - K21; lia).
+    cbn [ch_login_now ch_login_host ch_login_email ch_login_redeem ch_code_now ch_code_email ch_code_uri ch_sig_ok
+         ch_vouch_now ch_vouch_email ch_vouch_called].
+    rewrite L1, L2, L3, L4, L5, L7, L8, L9, L10, L11, L12, L13, L14, L15. cbn [andb orb negb].
+    unfold revocation_ok. cbn [ch_revoked ch_login_now]. rewrite K10.
+      destruct (first_rev (st_idp st) (Some g)) as [t|] eqn:Erv; [|reflexivity].
+      apply first_rev_in in Erv.
+      destruct (revoked_served re_match re_replace lower sd Hwired st q bk lk sc bv e p g t HV HI0 HR Eb
+                  ltac:(rewrite He; left; reflexivity) K1 K10 Erv) as [H1|[[H1 H2]|[t' [H1 [H2 [H3 H4]]]]]].
+      + replace (st_now st <=? t + P.dp_V (sd_p sd) + slack) with true by (unfold slack; clear - H1; lia). reflexivity.
+      + apply orb_true_iff. left. apply orb_true_iff. right. cbn [negb andb].
+        apply andb_true_iff. split; [unfold slack; clear - H1; lia | unfold slack; clear - H2; lia].
+      + apply orb_true_iff. right. apply existsb_exists. exists t'. split; [exact H1|]. unfold slack. clear - H2 H3 H4. lia.
+  - (* a session handed out *)
+    rewrite Heff.
+    destruct (P.visible_session _ _ _) as [| |sv] eqn:Ev; try reflexivity.
+    apply visible_saved in Ev.
+    destruct (str_eqb (P.rq_path q) P.p_callback) eqn:Ep; [|reflexivity]. cbn [negb orb].
+    apply callback_path_route in Ep. unfold proxy_outcome in Ev.
+    destruct (serve_saved_cases re_match re_replace lower _ _ _ _ _ _ Ev) as [u [Hr [_ Hc]]].
+    destruct Hc as [[_ [Hs' [_ [_ [e [acc [rt [ex [Hb _]]]]]]]]]|[Hrt _]]; [|contradiction].
+    cbn [P.an_redeem_body bc_answers] in Hb. pose proof Hb as Hb0.
+    apply (redeem_doc_genuine lower) in Hb as (_ & _ & slug & k & s & _ & Ho & _).
+    cbn [A.o_open a_oracles] in Ho. apply a_open_cases in Ho as [[Hk _]|[_ [_ [c [Hfc _]]]]]; [exfalso; apply Hwf; symmetry; exact Hk|].
+    apply find_c_in in Hfc as [Hcin _].
+    destruct HI as (_ & _ & HC & _). rewrite Forall_forall in HC.
+    destruct (HC c Hcin) as (g & v & _ & _ & _ & _ & _ & _ & _ & _ & _ & (m & t0 & _ & _ & S3 & _)).
+    unfold creds_agree, d_a. rewrite S3, str_eqb_refl. cbn [andb].
+    subst sv. unfold P.mint_session. cbn [P.an_redeem_body bc_answers]. rewrite Hb0. cbn [PC.s_upstream]. apply str_eqb_refl.
+Qed.
+
+End Accept.
+
+Section AcceptAuth.
+Variable lower : str -> str.
+Variable sd : sysdep.
+Hypothesis Hwf : wf sd.
+
+Notation aresp := (auth_resp lower sd).
+
+Lemma presented_rest st q slug k rest :
+  AP.routed (sd_a sd) q slug k rest ->
+  exists rec, presented_a sd st q = Some (slug, k, rest, rec).
+Proof. intros Hr. eexists. apply (routed_presented sd st q slug k rest Hr). Qed.
+
+Lemma auth_accepted st q x sc :
+  auth_ok sd (st_now st) (model_aobs sd st q (snd (auth_step lower sd st q x sc))) = true.
+Proof.
+  set (r := aresp st q x sc).
+  assert (Hr : ao_resp (snd (auth_step lower sd st q x sc)) = r) by reflexivity.
+  unfold auth_ok, model_aobs. rewrite Hr.
+  cbn [oa_loc oa_route oa_uri oa_pres oa_calls oa_revoked oa_sess oa_json oa_creds oa_sig_ok].
+  apply andb_true_iff. split; [apply andb_true_iff; split|].
+  - (* a code *)
+    destruct (A.r_loc r) as [| |src s| |] eqn:El; cbn [model_aloc]; try reflexivity.
+    unfold r, auth_resp in El.
+    destruct (AP.code_end_to_end lower (sd_a sd) q (a_oracles sd st x) (auth_answers sd st q sc) (now_ns st) src s El)
+      as (slug & k & Hrt & Hg & Hsrc & _ & _ & _ & _ & _ & Hck & _).
+    destruct Hck as (c0 & s0 & _ & _ & _ & _ & _ & _ & _ & _ & calls & Hcalls & Hconf).
+    destruct (auth_code_cases lower sd st q x sc src s Hwf El) as (a & Hp & Hia & He & Hl & Hlt & _ & Hvr & _ & (m0 & t0 & Hpm & _) & Hup & Hnr).
+    destruct (presented_rest st q slug k _ Hrt) as [rec Hpa]. rewrite Hpa.
+    replace (route_no A.p_sign_in) with 2%N by reflexivity. cbn [N.eqb Pos.eqb andb].
+    assert (Huri : B.form_get A.k_redirect_uri (fst (B.compute_form (A.inner q A.p_sign_in))) = src) by (symmetry; exact Hsrc).
+    rewrite Huri. unfold in_domain_uri, d_a. rewrite (Corr_C07_proofs.redir_monitor_ok _ _ Hvr). rewrite Hpm. cbn [andb].
+    rewrite Hp. cbn [F.s_email A.to_flow F.s_lifetime].
+    assert (E1 : str_eqb (F.s_email s) (B.s_email (ar_s a)) = true) by (rewrite He; apply str_eqb_refl).
+    rewrite E1. replace (st_now st <=? B.s_lifetime_dl (ar_s a) + slack) with true by (unfold slack; clear - Hlt; lia).
+    assert (E2 : nilb (A.r_calls r) = false).
+    { unfold r, auth_resp. rewrite Hcalls.
+      destruct Hconf as [[_ [_ [j [tk [du [_ [_ Hc]]]]]]]|[_ [_ [_ [_ Hc]]]]]; rewrite Hc; reflexivity. }
+    rewrite E2. cbn [negb andb].
+    unfold auth_grant. rewrite Hp. rewrite (first_rev_none _ _ Hnr). reflexivity.
+  - (* session cookies *)
+    apply forallb_forall. intros op Hop. destruct op as [|s].
+    { (* C19: a clearing Set-Cookie on /sign_out for a live session comes after the revoke call *)
+      unfold r, auth_resp in Hop.
+      destruct (AP.serve_inv lower (sd_a sd) q (a_oracles sd st x) (auth_answers sd st q sc) (now_ns st))
+        as [[_ [[_ [Hn _]] _]]|[slug [k [rest [Hrt _]]]]]; [rewrite Hn in Hop; destruct Hop|].
+      rewrite (routed_presented sd st q slug k rest Hrt).
+      destruct (N.eqb (route_no rest) 3) eqn:E3; [|reflexivity]. cbn [negb orb].
+      assert (Hrest : rest = A.p_sign_out).
+      { unfold route_no in E3. destruct (str_eqb rest A.p_start); [discriminate|]. destruct (str_eqb rest A.p_sign_in); [discriminate|].
+        destruct (str_eqb rest A.p_sign_out) eqn:Es; [apply str_eqb_eq in Es; exact Es|].
+        destruct (str_eqb rest A.p_callback); [discriminate|]. destruct (mem_str rest _); discriminate. }
+      subst rest. unfold auth_pres. rewrite (routed_presented sd st q slug k _ Hrt).
+      destruct (A.lookup slug (A.q_sess q)) as [v|] eqn:Elk; [|reflexivity].
+      destruct (find_a st v) as [a|] eqn:Efa; [|reflexivity].
+      destruct (AP.signout_end_to_end lower (sd_a sd) q (a_oracles sd st x) (auth_answers sd st q sc) (now_ns st)) as [_ H2].
+      cbv zeta in H2. destruct (H2 slug k Hrt) as [Hc _].
+      destruct (Hc Hop) as (_ & _ & _ & _ & [[Hj _]|[s0 [_ [Hcalls _]]]]).
+      - exfalso. rewrite Elk in Hj. unfold A.cookie_of in Hj. cbn [A.o_open a_oracles] in Hj. unfold a_open in Hj.
+        rewrite Efa in Hj. unfold A.key_of in Hj. rewrite N.eqb_refl in Hj. cbn in Hj. discriminate.
+      - unfold r, auth_resp. rewrite Hcalls. reflexivity. }
+    unfold r, auth_resp in Hop.
+    destruct (AP.login_end_to_end lower (sd_a sd) q (a_oracles sd st x) (auth_answers sd st q sc) (now_ns st) s Hop)
+      as [slug [k [[Hrt H]|[Hrt H]]]].
+    + cbv zeta in H. destruct H as [_ H].
+      destruct H as (nonce & redirect & ts & _ & _ & _ & _ & _ & _ & _ & _ & _ & Hs & _ & _ & _ & _ & Hcalls).
+      rewrite now_s_of in Hs.
+      destruct (presented_rest st q slug k _ Hrt) as [rec Hpa]. rewrite Hpa.
+      replace (route_no A.p_callback) with 4%N by reflexivity. cbn [N.eqb Pos.eqb andb].
+      apply orb_true_iff. left. unfold r, auth_resp. rewrite Hcalls. cbn [existsb is_redeem_call orb andb].
+      subst s. cbn [F.redeemed_session F.s_lifetime]. unfold d_a. apply close_refl.
+    + destruct H as [c [s0 [Hl [Ho [Hlt [He [_ [Hlf _]]]]]]]].
+      destruct (loaded_cookie sd st q x slug k _ c s0 Hwf Hrt Hl Ho) as [a [Hp [Hia [Hs _]]]].
+      destruct (presented_rest st q slug k _ Hrt) as [rec Hpa]. rewrite Hpa.
+      replace (route_no A.p_sign_in) with 2%N by reflexivity. cbn [N.eqb Pos.eqb andb orb].
+      rewrite Hp, Hs. destruct s0; cbn in *. rewrite He, Hlf, str_eqb_refl, close_refl. reflexivity.
+  - (* a token document *)
+    destruct (A.r_body r) as [| | | | |b| | | |] eqn:Eb; try reflexivity.
+    unfold r, auth_resp in Eb.
+    destruct (AP.backchannel_end_to_end lower (sd_a sd) q (a_oracles sd st x) (auth_answers sd st q sc) (now_ns st)) as (H1 & H2 & _).
+    destruct (H2 b Eb) as [h Hran]. destruct (H1 h Hran) as (slug & k & Hrt & _ & Hid & Hsec & _).
+    destruct (presented_rest st q slug k _ Hrt) as [rec Hpa]. rewrite Hpa.
+    rewrite Hid, Hsec, !str_eqb_refl. destruct h; reflexivity.
+Qed.
+
+End AcceptAuth.
+
+(* The monitor Corr_IntSystem.judge applies to the real services' observations — every clause that is PROVED of
+   the model: identity only for an IdP-vouched, code-redeemed, gate-passed, host-bound, live session; revocation
+   and sign-out bounded by V (with the in-flight-code and outage exceptions); codes only for live, IdP-confirmed,
+   unrevoked sessions and in-domain redirects; token documents only for callers with the client credentials —
+   accepts the observation the MODEL ITSELF predicts, for every deployment, history, IdP script and oracle. *)
+Theorem monitor_accepts_model re_match re_replace lower sd t0 evs :
+  wf sd -> wired re_match sd -> 0 <= P.dp_V (sd_p sd) ->
+  holds_gen re_match re_replace lower sd false (model_msteps re_match re_replace lower sd t0 evs) = true.
+Proof.
+  intros Hwf Hw HV. unfold holds_gen, model_msteps.
+  destruct (SystemAll.run re_match re_replace lower sd (init t0) evs) as [st' tr] eqn:Er. cbn [snd].
+  destruct (run_inv_rev re_match re_replace lower sd Hwf Hw evs (init t0) st' tr Er (inv_init re_match lower sd t0) (rev_init t0))
+    as [_ [_ Htr]].
+  destruct (run_names re_match re_replace lower sd evs (init t0) st' tr Er (names_init t0)) as [_ Hnm].
+  apply forallb_forall. intros m Hm. apply in_flat_map in Hm as [[[st e] o] [Hin Hm]].
+  destruct (Htr st e o Hin) as [HI [HR Ho]]. pose proof (Hnm st e o Hin) as HN.
+  unfold model_mstep in Hm.
+  destruct e as [dt|c|q bk lk sc|q x sc]; cbn [SystemAll.step] in Ho.
+  - subst o. destruct Hm.
+  - subst o. destruct Hm as [<-|[]]. reflexivity.
+  - destruct (proxy_step re_match re_replace lower sd st q bk lk sc) as [st1 po] eqn:Ep. cbn [snd] in Ho. subst o.
+    destruct Hm as [<-|[]]. unfold mstep_ok. cbn [ms_kind ms_obs ms_now].
+    pose proof (proxy_accepted re_match re_replace lower sd Hwf Hw HV st q bk lk sc HI HR HN) as Hacc.
+    cbn [SystemAll.step]. rewrite Ep in Hacc |- *. cbn [fst snd] in Hacc |- *. exact Hacc.
+  - destruct (auth_step lower sd st q x sc) as [st1 ao] eqn:Ea. cbn [snd] in Ho. subst o.
+    destruct Hm as [<-|[]]. unfold mstep_ok. cbn [ms_kind ms_obs ms_now].
+    pose proof (auth_accepted lower sd Hwf st q x sc) as Hacc. rewrite Ea in Hacc. exact Hacc.
+Qed.
+
+(* the monitor is not vacuous: at full strength it accepts the model's ordinary histories (login, revocation,
+   sign-out) and rejects exactly the two histories that witness the refuted clauses *)
+Example monitor_discriminates :
+  let ms evs := model_msteps SysEx.ex_match SysEx.ex_replace lower_ascii SysEx.sd 1000 evs in
+  let h strict evs := holds_gen SysEx.ex_match SysEx.ex_replace lower_ascii SysEx.sd strict (ms evs) in
+  h true SysEx.evs_served = true /\ h true SysEx.evs_revoked = true /\ h true SysEx.evs_signout = true /\
+  h true SysEx.evs_cross = false /\ h false SysEx.evs_cross = true /\
+  h true SysEx.evs_inflight = false /\ h false SysEx.evs_inflight = true /\
+  existsb (fun m => match ms_obs m with OP o => negb (nilb (op_seen o)) | _ => false end) (ms SysEx.evs_served) = true.
+Proof. cbv zeta. repeat split; vm_compute; reflexivity. Qed.
